@@ -41,7 +41,30 @@ def errStr : MErr → String
   | .unsupportedType => "unsupportedType"
   | .noMatch => "noMatch"
 
-def handle : List String → String
+def parseCfg (s : String) : Option FilterCfg :=
+  match s.splitOn "@" with
+  | [n, t, rs] => do
+      let n ← n.toNat?
+      let t ← t.toNat?
+      let rs ← parseList parseRule "," rs
+      pure { name := n, type := t, rules := rs }
+  | _ => none
+
+def resStr : Except MErr (List Target) → String
+  | .ok r => "ok " ++ (if r.isEmpty then "-" else "+".intercalate (r.map (fun t => toString t.id)))
+  | .error e => "err " ++ errStr e
+
+/-- stateful part: the `binding_filter_map` of ONE scheduler; `sf` = the filter loop of one `schedule()` call -/
+def step (env : FilterEnv) : List String → FilterEnv × String
+  | ["sreset"] => ([], "ok")
+  | ["sf", ts, cs, ins] =>
+      match parseList parseTarget "," ts, parseList parseCfg ";" cs, parseList parseInput "," ins with
+      | some ts, some cs, some ins =>
+          let (env', r) := scheduleFilters ins env cs ts
+          (env', resStr r)
+      | _, _, _ => (env, "bad-op")
+  | ws => (env, handle ws)
+where handle : List String → String
   | ["gt", ts, fs, ins] =>
       match parseList parseTarget "," ts, parseList (parseList parseRule ",") ";" fs, parseList parseInput "," ins with
       | some ts, some fs, some ins =>
@@ -51,4 +74,4 @@ def handle : List String → String
       | _, _, _ => "bad-op"
   | _ => "bad-op"
 
-def main : IO Unit := runPure handle
+def main : IO Unit := runStateful ([] : FilterEnv) step
